@@ -1353,4 +1353,277 @@ theorem timers_reparked (pre post : List PK) (p p' : PK) (sls : List Sleeper)
   apply List.Perm.append_left
   exact List.perm_append_singleton _ _
 
+/-! ## Part 6: a timer of a parked loop fires -/
+
+theorem ParkedK.find_sl {K i : Nat} {results : List (Nat × Val)} {P : List PK} {s : State} (h : ParkedK K i results P s)
+    {p : PK} (hp : p ∈ P) : s.frames.find? (fun g => decide (g.fid = p.sl)) = some p.slFrame := by
+  obtain ⟨rest, hfr, hperm⟩ := h.frames
+  have hids := h.ids p hp
+  have hmem : p.slFrame ∈ rest := hperm.mem_iff.mpr (by
+    simp only [pkFrames, List.mem_flatMap, List.mem_cons, List.mem_nil_iff, or_false]
+    exact ⟨p, hp, Or.inr rfl⟩)
+  have hnd : (rest.map (·.fid)).Nodup := by
+    have := (hperm.map (·.fid)).nodup_iff.mpr (by rw [pkFrames_fids]; exact h.nodupF)
+    exact this
+  have h1 : ¬ i + 1 = p.sl := by omega
+  have h2 : ¬ i + 2 = p.sl := by omega
+  rw [hfr]
+  simp only [List.find?_cons, h1, h2, decide_false]
+  exact find_fid_of_mem hnd hmem
+
+theorem ParkedK.find_mt {K i : Nat} {results : List (Nat × Val)} {P : List PK} {s : State} (h : ParkedK K i results P s)
+    {p : PK} (hp : p ∈ P) : s.frames.find? (fun g => decide (g.fid = p.mt)) = some (p.mtFrame i) := by
+  obtain ⟨rest, hfr, hperm⟩ := h.frames
+  have hids := h.ids p hp
+  have hmem : p.mtFrame i ∈ rest := hperm.mem_iff.mpr (by
+    simp only [pkFrames, List.mem_flatMap, List.mem_cons, List.mem_nil_iff, or_false]
+    exact ⟨p, hp, Or.inl rfl⟩)
+  have hnd : (rest.map (·.fid)).Nodup := by
+    have := (hperm.map (·.fid)).nodup_iff.mpr (by rw [pkFrames_fids]; exact h.nodupF)
+    exact this
+  have h1 : ¬ i + 1 = p.mt := by omega
+  have h2 : ¬ i + 2 = p.mt := by omega
+  rw [hfr]
+  simp only [List.find?_cons, h1, h2, decide_false]
+  exact find_fid_of_mem hnd hmem
+
+theorem ParkedK.nid {K i : Nat} {results : List (Nat × Val)} {P : List PK} {s : State} (h : ParkedK K i results P s)
+    (hP : P ≠ []) : i + 3 < s.nextId := by
+  obtain ⟨p, hp⟩ := List.exists_mem_of_ne_nil P hP
+  have := h.ids p hp
+  omega
+
+theorem ParkedK.fresh {K i : Nat} {results : List (Nat × Val)} {P : List PK} {s : State} (h : ParkedK K i results P s)
+    (hP : P ≠ []) : ∀ g ∈ s.frames, g.fid < s.nextId := by
+  obtain ⟨rest, hfr, hperm⟩ := h.frames
+  have hn := h.nid hP
+  intro g hg
+  rw [hfr] at hg
+  simp only [List.mem_cons] at hg
+  rcases hg with rfl | rfl | hg
+  · show i + 1 < _; omega
+  · show i + 2 < _; omega
+  · obtain ⟨q, hq, hgq | hgq⟩ := mem_pkFrames (hperm.mem_iff.mp hg)
+    · have := h.ids q hq; rw [hgq]; show q.mt < _; omega
+    · have := h.ids q hq; rw [hgq]; show q.sl < _; omega
+
+/-- **a timer of a parked loop fires while its watcher still misses workers**: that watcher gets one more worker and
+    its loop parks again on a fresh timer; the other watchers, their loops and timers are untouched -/
+theorem wake_spawn_K (K i : Nat) (results : List (Nat × Val)) (pre post : List PK) (p : PK) (r : Nat) (s : State)
+    (hP : ParkedK K i results (pre ++ p :: post) s) (hd : DatK s) (hA : Acct [] (pre ++ p :: post) s)
+    (he : earliest s.sleepers = some p.timer) (hr : p.rem = r + 1) :
+    ∃ p', ParkedK K i results (pre ++ p' :: post) (step s .wake) ∧ DatK (step s .wake) ∧
+      Acct [] (pre ++ p' :: post) (step s .wake) ∧
+      toGo (pre ++ p' :: post) (step s .wake) + 1 = toGo (pre ++ p :: post) s ∧ Grow s.ws (step s .wake).ws := by
+  have hpm : p ∈ pre ++ p :: post := by simp
+  have hPne : pre ++ p :: post ≠ [] := by simp
+  have hd0 := hd
+  obtain ⟨hb, hk, hn, hall⟩ := hd
+  obtain ⟨w, hw, hwu, hwl⟩ := hA.parked p hpm
+  obtain ⟨rest, hfr, hperm⟩ := hP.frames
+  have hidp := hP.ids p hpm
+  have hnid := hP.nid hPne
+  -- the stimulus
+  have hop := wake_op_K s p.timer p.sl p.slFrame hk he rfl (hP.find_sl hpm) rfl (by intro n r h; cases h)
+  -- the state in which the loop body runs again
+  let S1 : State := { s with k := { s.k.beginStep with now := max s.k.beginStep.now p.timer.deadline },
+                             sleepers := s.sleepers.filter (fun x => decide (x.sid ≠ p.timer.sid)),
+                             frames := s.frames.filter (fun g => decide (g.fid ≠ p.sl)) }
+  have hd1 : DatK S1 := hd0.of_kernel (hk.beginStep.setNow_still _) rfl rfl rfl
+  have hfresh1 : ∀ g ∈ S1.frames, g.fid ≠ S1.nextId := by
+    intro g hg
+    have : g ∈ s.frames := (List.mem_filter.mp hg).1
+    have := hP.fresh hPne g this
+    show g.fid ≠ s.nextId
+    omega
+  have hlt : w.pids.length < w.np.toNat := by omega
+  obtain ⟨S2, dl, hloop, hd2, hws2, hf2, hsl2, hn2, ht2, hr2, ha2, hdv2, _⟩ :=
+    spawnLoop_K (exec 99999) w r (.frame p.mt 0) S1 hd1 hw hlt hfresh1
+  -- the step
+  have hstep : stepM .wake s = ((), S2) := by
+    rw [stepM_eq _ _ hb, hop]
+    have hrd : ({ S1 with ready := s.ready ++ [Ready.resume p.slFrame.k Val.unit p.slFrame.parent] } : State).ready =
+        Ready.resume (.spawnLoop w.uid (r + 1)) .unit (.frame p.mt 0) :: [] := by
+      show s.ready ++ _ = _
+      rw [hP.ready, hwu]
+      simp [PK.slFrame, hr]
+    have hset : settle 100000 { S1 with ready := s.ready ++ [Ready.resume p.slFrame.k Val.unit p.slFrame.parent] } = ((), S2) := by
+      have e1 : (100000 : Nat) = 99999 + 1 := rfl
+      have e2 : (99999 : Nat) = 99998 + 1 := rfl
+      rw [e1, settle_cons 99999 ({ S1 with ready := s.ready ++ [Ready.resume p.slFrame.k Val.unit p.slFrame.parent] } : State)
+        _ [] hb hrd]
+      simp only [runReady1]
+      have hS1' : ({ ({ S1 with ready := s.ready ++ [Ready.resume p.slFrame.k Val.unit p.slFrame.parent] } : State) with ready := [] } : State) = S1 := by
+        show ({ S1 with ready := [] } : State) = S1
+        have : S1.ready = [] := hP.ready
+        cases hS : S1
+        simp_all
+      rw [hS1', e1, exec_resume 99999 _ _ _ S1 hb]
+      simp only [runResume]
+      rw [hloop, e2]
+      exact settle_nil 99998 S2 (by rw [hr2]; exact hP.ready)
+    rw [stepTail_eq _ (by rw [hset, ha2]; exact hP.loopStop), hset]
+  have hres : step s .wake = S2 := by unfold step; rw [hstep]
+  rw [hres]
+  let p' : PK := { p with sl := s.nextId, sid := s.nextId + 1, dl := dl, rem := r }
+  have hmt' : p'.mtFrame i = p.mtFrame i := rfl
+  obtain ⟨hne, hoth, hndrest⟩ := pkIds_nodup_split hP.nodupF
+  obtain ⟨hsoth, hsnd⟩ := sids_nodup_split hP.nodupS
+  refine ⟨p', ⟨?_, ?_, by rw [ht2]; exact hP.tops, by rw [hr2]; exact hP.ready, ?_, hP.units, ?_, ?_, ?_,
+    by rw [ha2]; exact hP.slot, by rw [ha2]; exact hP.loopStop, by rw [ha2]; exact hP.stopping,
+    by rw [ha2]; exact hP.restarting, ?_, trivial⟩, hd2, ?_, ?_, ?_⟩
+  · -- frames
+    refine ⟨rest.filter (fun g => decide (g.fid ≠ p.sl)) ++ [p'.slFrame], ?_, rest_respawn i pre post p p' rest hperm hP.nodupF hmt'⟩
+    rw [hf2]
+    show s.frames.filter _ ++ _ = _
+    rw [hfr]
+    have h1 : ¬ i + 1 = p.sl := by omega
+    have h2 : ¬ i + 2 = p.sl := by omega
+    simp only [List.filter_cons, h1, h2, ne_eq, not_false_eq_true, decide_true, if_true, List.cons_append]
+    rw [hwu]
+    rfl
+  · -- timers
+    rw [hsl2]
+    exact timers_reparked pre post p p' s.sleepers hP.sleepers hP.nodupS
+  · have := hP.count
+    simpa using this
+  · intro q hq
+    rw [hn2]
+    show i + 2 < q.mt ∧ i + 2 < q.sl ∧ q.mt < s.nextId + 2 ∧ q.sl < s.nextId + 2 ∧ q.sid < s.nextId + 2
+    rcases List.mem_append.mp hq with hq | hq
+    · have := hP.ids q (by simp [hq]); omega
+    · rcases List.mem_cons.mp hq with rfl | hq
+      · show i + 2 < p.mt ∧ i + 2 < s.nextId ∧ p.mt < s.nextId + 2 ∧ s.nextId < s.nextId + 2 ∧ s.nextId + 1 < s.nextId + 2
+        omega
+      · have := hP.ids q (by simp [hq]); omega
+  · -- frame ids pairwise different
+    rw [pkIds_split]
+    have hsplit : pkIds (pre ++ post) = pkIds pre ++ pkIds post := by simp [pkIds]
+    rw [hsplit] at hndrest
+    have h1 := List.nodup_append.mp hndrest
+    have hlt_all : ∀ x ∈ pkIds pre ++ pkIds post, x < s.nextId ∧ x ≠ p.mt := by
+      intro x hx
+      have hx' : x ∈ pkIds (pre ++ post) := by rw [hsplit]; exact hx
+      obtain ⟨q, hq, hxq⟩ := mem_pkIds.mp hx'
+      have hqP : q ∈ pre ++ p :: post := by
+        rcases List.mem_append.mp hq with h | h
+        · simp [h]
+        · simp [h]
+      have := hP.ids q hqP
+      have ho := hoth q hq
+      rcases hxq with rfl | rfl
+      · exact ⟨by omega, ho.1⟩
+      · exact ⟨by omega, ho.2.2.1⟩
+    apply List.nodup_append.mpr
+    refine ⟨h1.1, ?_, ?_⟩
+    · apply List.nodup_append.mpr
+      refine ⟨by show ([p.mt, s.nextId] : List Nat).Nodup; simp; omega, h1.2.1, ?_⟩
+      intro a ha b hb hab
+      subst hab
+      have := hlt_all a (by simp [hb])
+      simp only [List.mem_cons, List.mem_nil_iff, or_false] at ha
+      rcases ha with rfl | rfl
+      · exact this.2 rfl
+      · show False
+        have h3 := this.1
+        exact Nat.lt_irrefl _ h3
+    · intro a ha b hb hab
+      subst hab
+      simp only [List.mem_append, List.mem_cons, List.mem_nil_iff, or_false] at hb
+      rcases hb with (rfl | rfl) | hb
+      · exact (hlt_all _ (List.mem_append_left _ ha)).2 rfl
+      · exact Nat.lt_irrefl _ (hlt_all _ (List.mem_append_left _ ha)).1
+      · exact h1.2.2 a ha a hb rfl
+  · -- timer ids pairwise different
+    rw [List.map_append, List.map_cons]
+    rw [List.map_append] at hsnd
+    have h1 := List.nodup_append.mp hsnd
+    have hlt_all : ∀ q ∈ pre ++ post, q.sid < s.nextId := by
+      intro q hq
+      have hqP : q ∈ pre ++ p :: post := by
+        rcases List.mem_append.mp hq with h | h
+        · simp [h]
+        · simp [h]
+      exact (hP.ids q hqP).2.2.2.2
+    apply List.nodup_append.mpr
+    refine ⟨h1.1, ?_, ?_⟩
+    · apply List.nodup_cons.mpr
+      refine ⟨?_, h1.2.1⟩
+      intro hm
+      obtain ⟨q, hq, hqs⟩ := List.mem_map.mp hm
+      have := hlt_all q (by simp [hq])
+      have : q.sid = s.nextId + 1 := hqs
+      omega
+    · intro a ha b hb hab
+      subst hab
+      rcases List.mem_cons.mp hb with rfl | hb
+      · obtain ⟨q, hq, hqs⟩ := List.mem_map.mp ha
+        have := hlt_all q (by simp [hq])
+        have : q.sid = s.nextId + 1 := hqs
+        omega
+      · exact h1.2.2 a ha a hb rfl
+  · -- the registered watchers
+    rw [ha2, hws2]
+    show s.a.watchers = (addPid w.uid s.k.nextPid s.ws).map (·.uid)
+    rw [addPid_uids]
+    exact hP.watchers
+  · -- accounting
+    have huid : (pre ++ p' :: post).map (·.uid) = (pre ++ p :: post).map (·.uid) := by simp [p']
+    refine ⟨?_, by rw [huid]; exact hA.nodupU, ?_, fun q _ h => by cases h⟩
+    · intro q hq
+      rw [hws2]
+      have hcases : q = p' ∨ q ∈ pre ++ post := by
+        rcases List.mem_append.mp hq with h | h
+        · exact Or.inr (by simp [h])
+        · rcases List.mem_cons.mp h with h | h
+          · exact Or.inl h
+          · exact Or.inr (by simp [h])
+      rcases hcases with rfl | hq'
+      · refine ⟨{ w with pids := w.pids ++ [s.k.nextPid] }, mem_addPid_self hw _, hwu, ?_⟩
+        show (w.pids ++ [s.k.nextPid]).length + r = w.np.toNat
+        simp only [List.length_append, List.length_cons, List.length_nil]
+        omega
+      · have hqP : q ∈ pre ++ p :: post := by
+          rcases List.mem_append.mp hq' with h | h
+          · simp [h]
+          · simp [h]
+        obtain ⟨wq, hwq, hwqu, hwql⟩ := hA.parked q hqP
+        have hne' : wq.uid ≠ w.uid := by
+          rw [hwqu, hwu]
+          -- uids of parked loops are pairwise different
+          have hnu := hA.nodupU
+          rw [List.map_append, List.map_cons] at hnu
+          have g1 := List.nodup_append.mp hnu
+          have g2 := List.nodup_cons.mp g1.2.1
+          rcases List.mem_append.mp hq' with h | h
+          · exact g1.2.2 q.uid (List.mem_map_of_mem h) p.uid (by simp)
+          · intro heq
+            exact g2.1 (heq ▸ List.mem_map_of_mem h)
+        exact ⟨wq, mem_addPid_other hwq hne' _, hwqu, hwql⟩
+    · intro w' hw' _ hnp
+      rw [hws2] at hw'
+      obtain ⟨w0, hw0, h | h⟩ := mem_addPid hw'
+      · exfalso
+        obtain ⟨hu0, rfl⟩ := h
+        exact hnp p' (by simp) (by show p.uid = w0.uid; rw [hu0, hwu])
+      · obtain ⟨_, rfl⟩ := h
+        apply hA.full w' hw0 (by simp)
+        intro q hq
+        rcases List.mem_append.mp hq with h | h
+        · exact hnp q (by simp [h])
+        · rcases List.mem_cons.mp h with rfl | h
+          · exact hnp p' (by simp)
+          · exact hnp q (by simp [h])
+  · -- the measure
+    unfold toGo
+    rw [hws2]
+    have e1 : S1.ws = s.ws := rfl
+    have e2 : S1.k.nextPid = s.k.nextPid := rfl
+    rw [e1, e2]
+    have := sum_missing_addPid s.ws w s.k.nextPid hn hw hlt
+    simp only [List.length_append, List.length_cons]
+    omega
+  · rw [hws2]
+    exact Grow.addPid _ _ _
+
 end Circus.Core
